@@ -1,4 +1,291 @@
-/- C05 — property theorems (under construction). -/
+/-
+  C05 — Stats equal the aggregates over exactly the filtered rows.
+  Property theorems only; helper lemmas live in Lmd/Lemmas/StatsLemmas.lean.
+-/
 import Lmd.Props.C01
+import Lmd.Lemmas.StatsLemmas
+
 namespace Lmd.C05
+
+open Lmd
+
+/-! ## 1. a slot prints the arithmetic aggregate of the values it has seen
+
+`accOf k vs` is the slot of kind `k` after one backend has applied the values `vs` row by row. -/
+
+/-- For every kind of stats column and every list of row values, the value lmd prints for a slot that
+    has been fed these values one row at a time is *literally* the arithmetic specification: the number
+    of rows for a counter, the sum, the sum over the number of rows for an average, the minimum, the
+    maximum (both from the first value on, so negative values are handled), and 0 for no rows. -/
+theorem acc_fold_final (k : AccKind) (vs : List Int) :
+    (vs.foldl (fun a v => a.apply v 1) (Acc.init k)).final = specFinal k vs :=
+  final_accOf k vs
+
+/-- The same as `acc_fold_final`, read as an equation between rationals `n₁/d₁ = n₂/d₂`. -/
+theorem acc_fold_final_rat (k : AccKind) (vs : List Int) :
+    (accOf k vs).final.1 * (specFinal k vs).2 = (specFinal k vs).1 * (accOf k vs).final.2 := by
+  rw [final_accOf]
+
+/-- non-vacuity: a negative minimum (printed `-1000` before the repair of the "first value" rule) -/
+example : (accOf .min [-3000, 5000, -7000]).final = (-7000, 1) := by decide
+/-- non-vacuity: an all-negative maximum (printed `0` before the repair) -/
+example : (accOf .max [-3000, -5000, -1000]).final = (-1000, 1) := by decide
+example : specFinal .max [-3000, -5000, -1000] = (-1000, 1) := by decide
+example : (accOf .avg [1000, 2000, 4000]).final = (7000, 3) := by decide
+example : (accOf .sum [1000, -2500]).final = (-1500, 1) := by decide
+example : (accOf .counter [0, 0, 0, 0]).final = (4, 1) := by decide
+example : (accOf .min []).final = (0, 1) := by decide
+
+/-! ## 2. merging backends is a homomorphism -/
+
+/-- Merging the slot of a second backend (rows `ys`) into the slot of a first backend (rows `xs`) the way
+    `Response.MergeStats` does gives exactly the slot one backend holding all the rows `xs ++ ys` would
+    have — for every kind, including empty backends and negative extrema. -/
+theorem merge_hom (k : AccKind) (xs ys : List Int) :
+    (accOf k xs).apply (accOf k ys).stats (accOf k ys).count = accOf k (xs ++ ys) :=
+  merge_accOf k xs ys
+
+/-- The merged slot does not depend on how the rows are spread over the backends: for any number of
+    backends with any row lists `parts`, merging their slots from left to right into an empty slot gives
+    the slot of the concatenation of all rows. -/
+theorem split_independent (k : AccKind) (parts : List (List Int)) :
+    parts.foldl (fun a p => a.apply (accOf k p).stats (accOf k p).count) (Acc.init k) =
+      accOf k parts.flatten := by
+  have := merge_parts k [] parts
+  simpa [accOf] using this
+
+/-- As `split_independent`, in the form `MergeStats` really runs: the first backend's slot is taken as it
+    is and the later ones are applied to it. -/
+theorem split_independent_first (k : AccKind) (p : List Int) (parts : List (List Int)) :
+    parts.foldl (fun a p => a.apply (accOf k p).stats (accOf k p).count) (accOf k p) =
+      accOf k (p :: parts).flatten := by
+  simpa using merge_parts k p parts
+
+/-- Consequently two different splits of the same rows print the same value. -/
+theorem split_independent_final (k : AccKind) (parts parts' : List (List Int))
+    (h : parts.flatten = parts'.flatten) :
+    (parts.foldl (fun a p => a.apply (accOf k p).stats (accOf k p).count) (Acc.init k)).final =
+      (parts'.foldl (fun a p => a.apply (accOf k p).stats (accOf k p).count) (Acc.init k)).final := by
+  rw [split_independent, split_independent, h]
+
+/-- `MergeStats` on whole result maps works key by key (group-by keys of the second map distinct): a key
+    on both sides gets its slots merged slot by slot, a key on one side only keeps its slots. -/
+theorem merge_per_key (a b : StatsMap) (hb : (keys b).Nodup) (key : String) :
+    lookup (mergeStats a b) key =
+      match lookup b key with
+      | none => lookup a key
+      | some s => some (match lookup a key with
+          | some cur => zipMerge cur s
+          | none => s) :=
+  mergeStats_lookup b a hb key
+
+/-- Slot-wise merging of two backends' slot lists for the stats columns of kinds `ks` gives the slot list
+    of the union of their rows. -/
+theorem merge_slots_hom (ks : List AccKind) (xss yss : List (List Int)) :
+    zipMerge (List.zipWith accOf ks xss) (List.zipWith accOf ks yss) =
+      List.zipWith accOf ks (List.zipWith (· ++ ·) xss yss) :=
+  zipMerge_accOf ks xss yss
+
+/-- non-vacuity: a negative minimum on the second backend wins over a positive one on the first -/
+example : (accOf .min [4000, 9000]).apply (accOf .min [-2000, 3000]).stats (accOf .min [-2000, 3000]).count
+    = { kind := .min, stats := -2000, count := 4 } := by decide
+/-- non-vacuity: all-negative maximum over three backends, one of them empty -/
+example : [[-5000], [], [-1000, -8000]].foldl
+      (fun a p => a.apply (accOf .max p).stats (accOf .max p).count) (Acc.init .max)
+    = { kind := .max, stats := -1000, count := 3 } := by decide
+example : accOf .max [-5000, -1000, -8000] = { kind := .max, stats := -1000, count := 3 } := by decide
+
+/-! ## 3. flat counting: each stats column on its own slot, under the Boolean semantics -/
+
+/-- Evaluating the flat stats list on one row (specification mode: Boolean filter semantics) with one slot
+    per stats column leaves the number of slots unchanged, bumps the slot of a counter iff the counter's
+    filter holds for the row (`sem`), and applies the row's value to the slot of an aggregate. -/
+theorem counter_spec (q : Quirks) (v : View) (stats : List StatsEntry) (accs accs' : Accs)
+    (hlen : accs.length = stats.length) (h : countFlat q false v stats 0 accs = some accs') :
+    accs'.length = accs.length ∧
+    ∀ (i : Nat) (h1 : i < stats.length) (h2 : i < accs.length),
+      accs'[i]? = stepSlot q v stats[i] accs[i] := by
+  rw [countFlat_slotwise q v stats accs hlen] at h
+  exact slotwise_spec q v stats accs accs' hlen h
+
+/-- Flat counting of a row fails (the daemon would crash) exactly when one of the aggregates' getters
+    panics on that row; counters never fail. -/
+theorem counter_spec_crash (q : Quirks) (v : View) (stats : List StatsEntry) (accs : Accs)
+    (hlen : accs.length = stats.length) :
+    countFlat q false v stats 0 accs = none ↔
+      ∃ k col n, StatsEntry.agg k col n ∈ stats ∧ getFloat v col = none := by
+  rw [countFlat_slotwise q v stats accs hlen]
+  exact slotwise_none_iff q v stats accs hlen
+
+/-- For a stats list consisting only of counters with filters `fs`: after counting any list of rows,
+    starting from fresh slots, slot `i` holds the number of rows for which filter `fᵢ` holds. -/
+theorem counter_fold_spec (q : Quirks) (fs : List Filter) (views : List View) :
+    views.foldlM (fun accs v => countFlat q false v (fs.map StatsEntry.counter) 0 accs)
+        (fs.map fun _ => Acc.init .counter) =
+      some (fs.map fun f => counterSlot ((views.filter (fun v => sem q v f)).length)) := by
+  have := counters_fold q fs views (fun _ => 0)
+  simpa [counterSlot, Acc.init] using this
+
+/-! concrete data for the non-vacuity examples: a row with `state = 2`, `acknowledged = 1` -/
+
+def colState : Column := { name := "state", dtype := .int, storage := .loc }
+def colAck : Column := { name := "acknowledged", dtype := .int, storage := .loc }
+def demoView : View := { get := fun c => if c.name == "state" then .i 2 else .i 1, flags := 0 }
+def stateIs2 : Leaf := { col := colState, op := .eq, sval := "2", num := 2000 }
+def ackIs (n : Int) : Leaf := { col := colAck, op := .eq, sval := toString n, num := n * 1000 }
+
+/-- `Stats: state = 2`, `Stats: acknowledged = 1`, `StatsAnd: 2` / the same with `acknowledged = 0` -/
+def demoStats : List StatsEntry :=
+  [ .counter (.grp true [.leaf stateIs2 false, .leaf (ackIs 1) false] false),
+    .counter (.grp true [.leaf stateIs2 false, .leaf (ackIs 0) false] false) ]
+
+def demoSlots : Accs := [Acc.init .counter, Acc.init .counter]
+
+/-- non-vacuity of `counter_spec`: the hypotheses hold for the demo row and the first counter is hit -/
+example : countFlat Quirks.none false demoView demoStats 0 demoSlots =
+    some [counterSlot 1, counterSlot 0] := by decide
+
+/-! ## 4. negation push-down does not change flat counting -/
+
+/-- With the negation defect repaired, counting with the daemon's filter evaluation (`MatchFilter` with
+    negation push-down) equals counting under the Boolean semantics: for every row, stats list, start
+    position and slots. -/
+theorem countFlat_pushDown (q : Quirks) (hq : q.negOr = false) (v : View) :
+    ∀ (stats : List StatsEntry) (pos : Nat) (accs : Accs),
+      countFlat q true v stats pos accs = countFlat q false v stats pos accs
+  | [], _, _ => by simp [countFlat]
+  | .counter f :: rest, pos, accs => by
+    simp only [countFlat, if_true, Bool.false_eq_true, if_false, Lmd.C01.matchF_eq_sem q hq v f false,
+      Bool.bne_false]
+    exact countFlat_pushDown q hq v rest _ _
+  | .agg k col n :: rest, pos, accs => by
+    simp only [countFlat]
+    cases getFloat v col with
+    | none => rfl
+    | some m => exact countFlat_pushDown q hq v rest _ _
+
+example : Quirks.none.negOr = false := rfl
+
+/-! ## 5. the grouping optimiser -/
+
+/-- Soundness of `optimizeStatsGroups`, for unbounded stats lists and the full recursion into sub groups.
+    For every quirks record, row, stats list and slots: if the optimiser produced a grouped form, then
+    counting the row with the grouped form equals counting it with the flat list — provided the leaves the
+    optimiser may identify evaluate alike on that row: `KeyCongr P q v` says that two leaves satisfying `P`
+    with the same column name, operator, string value, custom tag and empty flag (`sameKey`, the
+    comparison the optimiser uses when it appends to a group; `Filter.Equals` is finer) have the same
+    `matchLeaf`, and `StatsOK P stats` says all leaves of the counters satisfy `P`.
+
+    What is missing for the unrestricted statement: nothing can be — without the congruence hypothesis the
+    statement is false for the model (see `grouping_unsound_without_congruence`), because the optimiser
+    compares leaves by their text, not by the resolved column / parsed number / compiled pattern.
+    Discharging the hypothesis for leaves built by the request parser (where these fields are functions of
+    the text) is the open piece.  Neither `q.negOr = false` nor `accs.length = stats.length` is needed. -/
+theorem grouping_sound_partial (P : Leaf → Prop) (q : Quirks) (v : View) (hk : KeyCongr P q v)
+    (stats : List StatsEntry) (hs : StatsOK P stats) (nodes : List SNode)
+    (h : optimizeStats stats = some nodes) (accs : Accs) :
+    countNodes q v nodes accs = countFlat q true v stats 0 accs :=
+  grouping_bumps P q v hk stats hs nodes h accs
+
+/-- `grouping_sound_partial` with a hypothesis that mentions neither the row nor the quirks: if every leaf
+    of the stats list is determined by its key — there is one function `mk` from (column name, operator,
+    string value, tag, empty flag) to leaves that rebuilds each of them, as is the case for a
+    deterministic parser working on one table — then grouped and flat counting agree on every row. -/
+theorem grouping_sound_of_keyDetermined
+    (mk : String → Op → String → String → Bool → Leaf)
+    (stats : List StatsEntry)
+    (hs : StatsOK (fun l => l = mk l.col.name l.op l.sval l.tag l.isEmpty) stats)
+    (nodes : List SNode) (h : optimizeStats stats = some nodes)
+    (q : Quirks) (v : View) (accs : Accs) :
+    countNodes q v nodes accs = countFlat q true v stats 0 accs := by
+  refine grouping_bumps _ q v ?_ stats hs nodes h accs
+  intro a b ha hb hab
+  simp only [sameKey, Bool.and_eq_true, beq_iff_eq] at hab
+  obtain ⟨⟨⟨⟨⟨h1, _⟩, h3⟩, h4⟩, h5⟩, h6⟩ := hab
+  rw [ha, hb, h1, h3, h4, h5, h6]
+
+/-- Grouped counting also equals the specification (Boolean semantics, flat) once negation is repaired. -/
+theorem grouping_sound_spec (P : Leaf → Prop) (q : Quirks) (hq : q.negOr = false) (v : View)
+    (hk : KeyCongr P q v) (stats : List StatsEntry) (hs : StatsOK P stats) (nodes : List SNode)
+    (h : optimizeStats stats = some nodes) (accs : Accs) :
+    countNodes q v nodes accs = countFlat q false v stats 0 accs := by
+  rw [grouping_bumps P q v hk stats hs nodes h accs, countFlat_pushDown q hq v]
+
+/-- non-vacuity: the two demo counters share their first term, the optimiser nests them under one group … -/
+example : optimizeStats demoStats =
+    some [.sgroup stateIs2 false [.counter 0 (.leaf (ackIs 1) false), .counter 1 (.leaf (ackIs 0) false)]] := by
+  rfl
+/-- … all their leaves are determined by their key (`P` := being one of the three leaves; equal keys are
+    equal leaves) … -/
+example : StatsOK (fun l => l = stateIs2 ∨ l = ackIs 1 ∨ l = ackIs 0) demoStats ∧
+    KeyCongr (fun l => l = stateIs2 ∨ l = ackIs 1 ∨ l = ackIs 0) Quirks.none demoView := by
+  refine ⟨by simp [StatsOK, demoStats, FilterOK, FiltersOK], ?_⟩
+  rintro a b (rfl | rfl | rfl) (rfl | rfl | rfl) h <;> first | rfl | (revert h; decide)
+/-- … and both evaluations bump exactly the first slot. -/
+example : countNodes Quirks.none demoView
+      [.sgroup stateIs2 false [.counter 0 (.leaf (ackIs 1) false), .counter 1 (.leaf (ackIs 0) false)]] demoSlots
+    = some [counterSlot 1, counterSlot 0] := by decide
+example : countFlat Quirks.none true demoView demoStats 0 demoSlots = some [counterSlot 1, counterSlot 0] := by
+  decide
+
+/-- a leaf with the same text as `stateIs2` but resolved to a column of another type (never matches) -/
+def stateIs2Odd : Leaf :=
+  { col := { name := "state", dtype := .ifaceList, storage := .loc }, op := .eq, sval := "2", num := 2000 }
+
+/-- The congruence hypothesis of `grouping_sound_partial` cannot be dropped: on syntax trees whose leaves
+    carry the same text but different resolved columns the grouped form counts differently from the flat
+    list (negation repaired, one slot per column).  The optimiser identifies the two first terms by
+    `Filter.Equals`, which does not look at the column's type. -/
+theorem grouping_unsound_without_congruence :
+    ∃ (q : Quirks) (v : View) (stats : List StatsEntry) (nodes : List SNode) (accs : Accs),
+      q.negOr = false ∧ accs.length = stats.length ∧ optimizeStats stats = some nodes ∧
+      countNodes q v nodes accs ≠ countFlat q true v stats 0 accs :=
+  ⟨Quirks.none, demoView,
+    [ .counter (.grp true [.leaf stateIs2 false, .leaf (ackIs 1) false] false),
+      .counter (.grp true [.leaf stateIs2Odd false, .leaf (ackIs 1) false] false) ],
+    [.sgroup stateIs2 false [.counter 0 (.leaf (ackIs 1) false), .counter 1 (.leaf (ackIs 1) false)]],
+    demoSlots, by decide, by decide, by rfl, by decide⟩
+
+/-! ## 6. group-by: one slot list per key, fed by exactly the rows of that key -/
+
+/-- `gatherStatsResult` for one backend, when it does not crash: the keys of the result are pairwise
+    distinct, and for every key the result holds a slot list iff some candidate row passes the filter and
+    the authorisation check and has that key; that slot list is the fresh slot list after counting exactly
+    these rows, each once, in table order. (`gsCands`, `gsOk`, `gsKey`, `gsCount`, `gsInit` name the
+    candidate rows, the row test, the key, the per-row counting and the fresh slots of `gatherStats`.) -/
+theorem groupby_partition (m : StatsMode) (cx : Ctx) (t : Table) (req : Request) (reqCols : List Column)
+    (res : StatsMap) (h : gatherStats m cx t req reqCols = some res) :
+    (keys res).Nodup ∧
+    ∀ key : String,
+      let rows := (gsCands m cx t req).filter (fun r => gsOk m cx t req r && gsKey cx t reqCols r == key)
+      if rows.isEmpty then lookup res key = none
+      else ∃ slots, lookup res key = some slots ∧
+        rows.foldlM (fun accs r => gsCount m cx t req r accs) (gsInit req) = some slots := by
+  rw [gatherStats_eq] at h
+  obtain ⟨hn, hk⟩ := foldRows_spec _ _ _ _ _ _ _ h
+  refine ⟨hn (by simp [keys]), ?_⟩
+  intro key
+  have := hk key
+  simp only [lookup_nil, Option.isSome_none, Bool.false_or, Option.getD_none, rowsOf] at this
+  intro rows
+  by_cases he : rows.isEmpty = true
+  · simp only [he, if_true]
+    simpa [rows, he] using this
+  · simp only [he, Bool.false_eq_true, if_false]
+    simpa [rows, he] using this
+
+/-- The step used by `groupby_partition`, on its own: `upsert` changes the slot list of its key only (to
+    the counted-on version of the old one, or of the fresh slots for a new key) and keeps keys distinct. -/
+theorem upsert_partition (m m' : StatsMap) (key : String) (init : Accs) (f : Accs → Option Accs)
+    (h : m.upsert key init f = some m') :
+    ∃ x, f ((lookup m key).getD init) = some x ∧ lookup m' key = some x ∧
+      (∀ k, k ≠ key → lookup m' k = lookup m k) ∧ ((keys m).Nodup → (keys m').Nodup) :=
+  upsert_spec m m' key init f h
+
+/-- non-vacuity of `upsert_partition`: a new key is appended, an old one is updated in place -/
+example : StatsMap.upsert [("a", [counterSlot 1])] "b" [counterSlot 0] (fun s => some (s.map incr)) =
+    some [("a", [counterSlot 1]), ("b", [counterSlot 1])] := by decide
+example : StatsMap.upsert [("a", [counterSlot 1])] "a" [counterSlot 0] (fun s => some (s.map incr)) =
+    some [("a", [counterSlot 2])] := by decide
+
 end Lmd.C05
